@@ -828,6 +828,22 @@ def extract_batch_yields_own_flag(repo):
     return ok
 
 
+def extract_mutation_hash_by_id(repo):
+    """BaseMutation.__hash__ is `return id(self)` and no mutation class overrides it: membership in the optimiser's
+    set of removed mutations (`mutation not in removed_mutations`) is membership by identity - a mutation that
+    merely looks like a removed one is not removed with it"""
+    import glob
+    found = []
+    for path in sorted(glob.glob(os.path.join(repo, 'django_evolution', 'mutations', '*.py'))):
+        tree = ast.parse(open(path).read())
+        for cls in [n for n in ast.walk(tree) if isinstance(n, ast.ClassDef)]:
+            for fn in [n for n in cls.body if isinstance(n, ast.FunctionDef) and n.name == '__hash__']:
+                body = [n for n in fn.body
+                        if not (isinstance(n, ast.Expr) and isinstance(getattr(n, 'value', None), ast.Constant))]
+                found.append((cls.name, ' ; '.join(ast.unparse(n) for n in body)))
+    return found == [('BaseMutation', 'return id(self)')]
+
+
 def extract_found_reset_per_label(repo):
     """get_app_mutations: the flag that says "an SQL file was found for this label" is set to False INSIDE the loop
     over the labels (once per label), so that a label without an SQL file falls back to its Python module whatever
@@ -1111,6 +1127,10 @@ def regenerate(repo, outdir):
     flags['found_reset_per_label'] = frl
     parts.append('/-- get_app_mutations forgets, for every label, whether an earlier label was shipped as an SQL file -/')
     parts.append('def foundResetPerLabel : Bool := ' + ('true' if frl else 'false'))
+    mhi = extract_mutation_hash_by_id(repo)
+    flags['mutation_hash_by_id'] = mhi
+    parts.append('/-- mutations hash by identity: `mutation in removed_mutations` never matches a look-alike -/')
+    parts.append('def mutationHashById : Bool := ' + ('true' if mhi else 'false'))
     byf = extract_batch_yields_own_flag(repo)
     flags['batch_yields_own_flag'] = byf
     parts.append('/-- _prepare_transaction_batches hands every batch out with the flag of its own statements -/')
